@@ -335,8 +335,24 @@ func (*GzipPacked) CRC() uint32 {
 	return CrcGzipPacked
 }
 
-func (*GzipPacked) MarshalTL(e *tl.Encoder) error {
-	panic("not implemented")
+func (t *GzipPacked) MarshalTL(e *tl.Encoder) error {
+	data, err := tl.Marshal(t.Obj)
+	if err != nil {
+		return errors.Wrap(err, "encoding object to pack")
+	}
+
+	var packed bytes.Buffer
+	gz := gzip.NewWriter(&packed)
+	if _, err = gz.Write(data); err != nil {
+		return errors.Wrap(err, "packing object")
+	}
+	if err = gz.Close(); err != nil {
+		return errors.Wrap(err, "packing object")
+	}
+
+	e.PutUint(t.CRC())
+	e.PutMessage(packed.Bytes())
+	return e.CheckErr()
 }
 
 func (t *GzipPacked) UnmarshalTL(d *tl.Decoder) error {
